@@ -6,6 +6,12 @@ props=[json.loads(l) for l in open('/verif/properties.jsonl')]
 HOOK_COMMITS=["dc2fd90"]
 # id -> (technique, level text, level note)
 DONE={
+ "C06":("runtime monitoring: table-driven reference model of every wire layout compared with the real Marshal/Unmarshal in both directions; complete byte-string sweeps for <= 2-byte payloads, MHDR, FCtrl, DLSettings and the (direction, CID) registry; decode-edit-re-encode sequences",
+        "held on the executions observed; payloads of <= 2 bytes, the 256-value header bytes and the registry are enumerated completely, longer payloads by boundary patterns + seeded random strings",
+        "trusted: layout tables in harness/spec/wire.go transcribed from LoRaWAN 1.0.4/1.1; revision-dependent fields listed in the evidence assumptions are not asserted"),
+ "C07":("runtime monitoring: lossless-or-error oracle over full leaf-type domains, stream framing monitor against spec-built byte strings, and recorded registration histories checked against a sequential registry model (worker watchdogs turn hangs / memory blow-ups into attributed violations)",
+        "held on the executions observed; small payloads get the full product of leaf domains, registered sizes are enumerated for all 512 (direction, CID) pairs",
+        "trusted: field ranges of harness/spec/wire.go; DwellTime enum values other than its constants are not generated"),
  "C12":("runtime monitoring: complete sweep of every band configuration through the real API under recover(), judged by an independent Regional-Parameters model and the hook snapshot (downlink-capability of results)",
         "held on the executions observed; the (config x uplink DR x offset) and (config x channel) spaces are enumerated completely in both tiers, ping-slot inputs are sampled",
         "trusted: the regional rules transcribed in harness/spec/regional.go; LR-FHSS rows checked structurally only"),
